@@ -13,9 +13,9 @@ RULE = ("(a) exhaustive: every subscription path of length <=3 over {a,b,l,x,*} 
 
 def run(tier):
     if tier == "quick":
-        runs = [("patterns", 3), ("once", 1500), ("static", 800)]
+        runs = [("patterns", 3), ("once", 1500), ("static", 800), ("idle", 48)]
     else:
-        runs = [("patterns", 24, ["-max", "3"]), ("once", 60000), ("static", 30000)]
+        runs = [("patterns", 24, ["-max", "3"]), ("once", 60000), ("static", 30000), ("idle", 960)]
     return fam.run_family(PID, tier, runs, MODELS, RULE,
                           ["the query relation itself (QueryMatch) is the one model-checked and replayed for C09 (CTree.tla)"],
                           shards=16 if tier == "quick" else 48)
